@@ -63,7 +63,7 @@ def run_part(prop, tier, res, findings, work, map_ops, edit_ops, relevant, plans
     events = G.replay(vectors, plans, 0)
     nv = len(vectors)
     ndrift = sum(1 for i, ev in enumerate(events[:nv])
-                 if (vectors[i]["st"], vectors[i]["ret"], vectors[i]["post"]) != (ev["st"], ev["ret"], ev["post"]))
+                 if not ev.get("broken") and (vectors[i]["st"], vectors[i]["ret"], vectors[i]["post"]) != (ev["st"], ev["ret"], ev["post"]))
     if edit_ops:
         rv = G.rand_edit_vectors(edit_ops, sz["rand"], common.SEED)
         events += G.replay(rv, [("ms", "ascii")], len(events))
@@ -76,6 +76,11 @@ def run_part(prop, tier, res, findings, work, map_ops, edit_ops, relevant, plans
         sim_events, sdrift = G.sim_histories(beh, len(events))
         events += sim_events
         res.notes.setdefault("tg", {}).update(dict(simulated_behaviours=len(beh), simulated_steps=len(sim_events), simulated_drift=sdrift))
+    events, bad = T.split_broken(events)
+    for e in bad:
+        res.violations.append((prop + "_api_call_sequence_crashed_outside_the_call_under_test", e))
+    for i, e in enumerate(events):
+        e["id"] = i
     verdicts, nval, cmd = common.validate_traces("Trace_Tg", events, work, chunk=10000)
     res.cmds.append(cmd)
     res.traces += nval
